@@ -1,6 +1,6 @@
 """C16 deductive part (label S: all real values, bounded tensor shapes): the projected-gradient update block of both engines,
 executed symbolically from the real source on r x c tensors of symbolic reals (see vf/contracts/adv_update.py)."""
-from ..contracts.adv_gradflow import TorchGradFlow
+from ..contracts.adv_gradflow import Shuffle, TorchGradFlow
 from ..contracts.adv_update import UpdateBlock
 from ..pyvc import verify
 
@@ -33,4 +33,5 @@ def run_deductive(rep):
                                     ("adversary_does_not_see_the_predictor_output", verify.replace_expr("self.adversary_model(Y_hat)", "self.adversary_model(Y)"))]),
             (TorchGradFlow(True), [("y_not_passed_for_equalized_odds", verify.replace_expr("torch.cat((Y_hat, Y), dim=1)", "Y_hat"))])]
     rep.trust("torch autograd bookkeeping: .grad buffers accumulate, zero_grad empties them, backward adds the gradient of that loss (assumed); tensors opaque in the gradient-flow contract")
+    flow += [(Shuffle("torch"), [("sensitive_rows_not_permuted", verify.replace_expr("A[idx].view(A.size())", "A.view(A.size())"))]), (Shuffle("base"), [])]
     verify.verify_many(rep, flow, label="P")
